@@ -48,11 +48,16 @@ type advInsts struct {
 	// adds-only block and a deletion-only block)
 	pollardU *utreexo.Pollard
 	full63U  *utreexo.MapPollard
+	// instances that are asked to remember what they verify (remember=true):
+	// an accepted call changes what they store, never what is true
+	full63R   *utreexo.MapPollard
+	fromrootR *utreexo.MapPollard
 }
 
 var advAPIs = []string{"Verify", "Pollard.Verify", "MapPollard.Verify/63", "MapPollard.Verify/0",
 	"MapPollard.VerifyPartialProof/full", "MapPollard.VerifyPartialProof/fromroots",
-	"Pollard.Verify@after-undo", "MapPollard.Verify/63@after-undo"}
+	"Pollard.Verify@after-undo", "MapPollard.Verify/63@after-undo",
+	"MapPollard.Verify/63+remember", "MapPollard.Verify/fromroots+remember", "MapPollard.VerifyPartialProof/fromroots+remember"}
 
 // buildAdv constructs real instances in the abstract state of the line: add n
 // leaves, then delete the dead ones with the specification's canonical proof.
@@ -103,6 +108,12 @@ func buildAdv(sy *Symb, st *Step, exp *Expect) (*advInsts, error) {
 	}
 	fr := utreexo.NewMapPollardFromRoots(sy.Hs(exp.Roots), exp.N, false)
 	a.fromroot = &fr
+	a.full63R = newMap(true, 63)
+	if err := mk(a.full63R); err != nil {
+		return nil, err
+	}
+	frr := utreexo.NewMapPollardFromRoots(sy.Hs(exp.Roots), exp.N, false)
+	a.fromrootR = &frr
 	// detour instances
 	detour := func(acc utreexo.Utreexo) error {
 		if err := mk(acc); err != nil {
@@ -181,6 +192,12 @@ func (a *advInsts) call(api int, hs []Hash, tg []uint64, pf []Hash) (accepted bo
 			return false
 		}
 		err = a.full63U.Verify(hs, proof, false)
+	case 8:
+		err = a.full63R.Verify(hs, proof, true)
+	case 9:
+		err = a.fromrootR.Verify(hs, proof, true)
+	case 10:
+		err = a.fromrootR.VerifyPartialProof(tg, hs, pf, true)
 	}
 	return err == nil
 }
@@ -527,7 +544,7 @@ func (r *Runner) advTotality(l *Line) lineResult {
 	var mu sync.Mutex
 	var wg sync.WaitGroup
 	var calls, rejectedUpdates atomic.Int64
-	budget := 2 * time.Second
+	budget := 20 * time.Second
 	hang := func(c *AdvCase) {
 		mu.Lock()
 		f := Fail{Props: []string{"C04"}, Inst: c.API, Cat: "hang", What: fmt.Sprintf("call did not return within %v", budget), Case: c}
